@@ -103,7 +103,16 @@ void
 switchcase(struct switchcases *cases, unsigned long long i, struct block *b)
 {
 	struct switchcase *c;
+	unsigned long long m;
 
+	/* convert the constant to the promoted type of the controlling expression (C11 6.8.4.2p5) */
+	if (cases->type->size < sizeof(i)) {
+		i &= (1ull << cases->type->size * 8) - 1;
+		if (cases->type->u.basic.issigned) {
+			m = 1ull << cases->type->size * 8 - 1;
+			i = (i ^ m) - m;
+		}
+	}
 	c = treeinsert(&cases->root, i, sizeof(*c));
 	if (!c->node.new)
 		error(&tok.loc, "multiple 'case' labels with same value");
